@@ -155,6 +155,40 @@ def _jitter(env, rng):
     return np.asarray(cm.mat)
 
 
+def _dense(which):
+    def fn(env, rng):
+        M = importlib.import_module("pybrops.core.util.mate")
+        import pybrops.core.random.prng as prng
+        g = rng if rng is not None else prng.global_prng          # these helpers have no default: the caller passes the global generator
+        geno = np.asarray(env.pg.mat); xo = np.asarray(env.pg.vrnt_xoprob)
+        if which == "meiosis":
+            return M.dense_meiosis(geno, np.array([0, 3, 3, 5]), xo, g)
+        if which == "dh":
+            return M.dense_dh(geno, np.array([1, 1, 6]), xo, g)
+        return M.dense_cross(geno, geno, np.array([0, 2, 4]), np.array([1, 3, 5]), xo, g)
+    return fn
+
+
+def _embvmat(env, rng):
+    from pybrops.model.embvmat.DenseExpectedMaximumBreedingValueMatrix import DenseExpectedMaximumBreedingValueMatrix as E
+    return np.asarray(E.from_gmod(env.gm, env.pg, 3, 2).mat)
+
+
+def _xcfg_mate(enc):
+    def fn(env, rng):
+        from pybrops.core.util.array import xmapix
+        cls = getattr(importlib.import_module("pybrops.breed.prot.sel.cfg.%sMateSelectionConfiguration" % enc), "%sMateSelectionConfiguration" % enc)
+        xm = np.array(list(xmapix(5, 2, True)), dtype="int64")
+        decn = {"Subset": np.array([1, 4, 6]), "Integer": np.array([0, 2, 1, 0, 3, 0, 1, 0, 0, 1]), "Binary": np.array([1, 0, 1, 1, 0, 0, 1, 0, 0, 1]),
+                "Real": np.array([0.1, 0.0, 0.4, 0.2, 0.0, 0.3, 0.0, 0.5, 0.2, 0.0])}[enc]
+        return np.asarray(cls(ncross=4, nparent=2, nmating=1, nprogeny=1, pgmat=env.pg, xconfig_decn=decn, xconfig_xmap=xm, rng=rng).xconfig)
+    return fn
+
+
+def _memetic(name):
+    return lambda env, rng: _soln(_algo(name, rng, mod="NSGA2MemeticSubsetGeneticAlgorithm").minimize(_quad(two=True)))
+
+
 OPS = {
     # name: (kind, function, accepts an explicit generator)
     "tiled_choice": ("lib", _sampling("tiled_choice"), True),
@@ -191,6 +225,18 @@ OPS = {
     "nsga2_real": ("pymoo", lambda env, rng: _soln(_algo("NSGA2RealGeneticAlgorithm", rng).minimize(_vec("real", two=True))), True),
     "nsga2_binary": ("pymoo", lambda env, rng: _soln(_algo("NSGA2BinaryGeneticAlgorithm", rng).minimize(_vec("bin", two=True))), True),
     "memetic_subset": ("pymoo", lambda env, rng: _soln(_algo("NSGA2MutatorASubsetGeneticAlgorithm", rng, mod="NSGA2MemeticSubsetGeneticAlgorithm").minimize(_quad(two=True))), True),
+    "dense_meiosis": ("lib", _dense("meiosis"), True),
+    "dense_dh": ("lib", _dense("dh"), True),
+    "dense_cross": ("lib", _dense("cross"), True),
+    "embv_matrix": ("lib", _embvmat, False),
+    "xcfg_mate_subset": ("lib", _xcfg_mate("Subset"), True),
+    "xcfg_mate_integer": ("lib", _xcfg_mate("Integer"), True),
+    "xcfg_mate_binary": ("lib", _xcfg_mate("Binary"), True),
+    "xcfg_mate_real": ("lib", _xcfg_mate("Real"), True),
+    "sorting_climber": ("lib", lambda env, rng: _soln(_algo("SortingSteepestDescentSubsetHillClimber", rng).minimize(_quad())), False),
+    "memetic_steepest": ("pymoo", _memetic("NSGA2SteepestDescentSubsetGeneticAlgorithm"), True),
+    "memetic_stochastic": ("pymoo", _memetic("NSGA2StochasticDescentSubsetGeneticAlgorithm"), True),
+    "memetic_b": ("pymoo", _memetic("NSGA2MutatorBSubsetGeneticAlgorithm"), True),
     "select_ebv_ga": ("pymoo", _select("EstimatedBreedingValueIntegerSelection", "EstimatedBreedingValueSelection",
                                         lambda rng: _algo("IntegerGeneticAlgorithm", rng), unscale=True), True),
 }
